@@ -143,9 +143,12 @@ func (s *simscreen) Init() error {
 
 func (s *simscreen) Fini() {
 	s.Lock()
+	defer s.Unlock()
+	if s.fini {
+		return
+	}
 	s.fini = true
 	s.back.Resize(0, 0)
-	s.Unlock()
 	if s.quit != nil {
 		close(s.quit)
 	}
@@ -285,19 +288,27 @@ func (s *simscreen) draw() {
 }
 
 func (s *simscreen) EnableMouse(...MouseFlags) {
+	s.Lock()
 	s.mouse = true
+	s.Unlock()
 }
 
 func (s *simscreen) DisableMouse() {
+	s.Lock()
 	s.mouse = false
+	s.Unlock()
 }
 
 func (s *simscreen) EnablePaste() {
+	s.Lock()
 	s.paste = true
+	s.Unlock()
 }
 
 func (s *simscreen) DisablePaste() {
+	s.Lock()
 	s.paste = false
+	s.Unlock()
 }
 
 func (s *simscreen) EnableFocus() {
@@ -452,6 +463,8 @@ func (s *simscreen) UnregisterRuneFallback(r rune) {
 }
 
 func (s *simscreen) CanDisplay(r rune, checkFallbacks bool) bool {
+	s.Lock()
+	defer s.Unlock()
 
 	if enc := s.encoder; enc != nil {
 		nb := make([]byte, 6)
@@ -512,24 +525,35 @@ func (s *simscreen) StopQ() <-chan struct{} {
 }
 
 func (s *simscreen) SetTitle(title string) {
+	s.Lock()
 	s.title = title
+	s.Unlock()
 }
 
 func (s *simscreen) GetTitle() string {
+	s.Lock()
+	defer s.Unlock()
 	return s.title
 }
 
 func (s *simscreen) SetClipboard(data []byte) {
+	s.Lock()
 	s.clipboard = data
+	s.Unlock()
 }
 
 func (s *simscreen) GetClipboard() {
-	if s.clipboard != nil {
-		ev := NewEventClipboard(s.clipboard)
+	s.Lock()
+	data := s.clipboard
+	s.Unlock()
+	if data != nil {
+		ev := NewEventClipboard(data)
 		s.postEvent(ev)
 	}
 }
 
 func (s *simscreen) GetClipboardData() []byte {
+	s.Lock()
+	defer s.Unlock()
 	return s.clipboard
 }
